@@ -1238,6 +1238,19 @@ func (s *BgpServer) handleRouteRefresh(peer *peer, e *fsmMsg) {
 	}
 	rfList := []bgp.Family{rf}
 	s.getBestFromLocalCallback(peer, rfList, true, true, func(paths []*table.Path, filtered []*table.Path) {
+		// As soft reset out does: routes the peer was told and the export
+		// policy now rejects are withdrawn, not silently left behind.
+		withdrawals := make([]*table.Path, 0, len(filtered))
+		for _, path := range filtered {
+			if path == nil || path.IsEOR() {
+				continue
+			}
+			if !peer.IsFamilyEnabled(path.GetFamily()) || !peer.hasPathAlreadyBeenSent(path) {
+				continue
+			}
+			withdrawals = append(withdrawals, path.Clone(true))
+		}
+		paths = append(withdrawals, paths...)
 		if len(paths) > 0 {
 			peer.updateRoutes(paths...)
 			sendfsmOutgoingMsg(peer, paths)
